@@ -82,6 +82,10 @@ class Boom(Exception):
     pass
 
 
+_RAISES = [0]
+_RAISE_KINDS = (Boom, StopIteration, KeyError, AttributeError, TypeError, LookupError, StopAsyncIteration)
+
+
 # ------------------------------------------------------------------ actions
 
 GENERIC, KEEP, REMOVE, RAISE = ("generic",), ("keep",), ("remove",), ("raise",)
@@ -140,7 +144,10 @@ def perform(visitor, node, act):
     if k == "remove":
         return None
     if k == "raise":
-        raise Boom()
+        # the exception classes cycle: a visitor method may fail with anything, e.g. with the StopIteration of a bare
+        # `next(...)`, a KeyError / AttributeError / TypeError of its own lookups -- all of them propagate
+        _RAISES[0] += 1
+        raise _RAISE_KINDS[_RAISES[0] % len(_RAISE_KINDS)]()
     if k == "replace":
         return act[1]
     if k == "rewrite":
